@@ -175,6 +175,11 @@ pub(crate) struct ExactLenStream<D, E> {
     #[allow(clippy::type_complexity)]
     stream: SyncWrapper<Pin<Box<dyn Stream<Item = Result<D, E>> + Send>>>,
     remaining: u64,
+
+    /// Set once the inner stream has ended. It is not polled again after that: a `Stream` may
+    /// panic when polled after its end (`futures::stream::unfold` does, and with it
+    /// `ChunkedReadFile`).
+    finished: bool,
 }
 
 impl<D, E> ExactLenStream<D, E> {
@@ -182,6 +187,7 @@ impl<D, E> ExactLenStream<D, E> {
         Self {
             stream: SyncWrapper::new(stream),
             remaining: len,
+            finished: false,
         }
     }
 }
@@ -198,6 +204,9 @@ where
         cx: &mut std::task::Context<'_>,
     ) -> Poll<Option<Result<D, E>>> {
         let this = Pin::into_inner(self);
+        if this.finished {
+            return Poll::Ready(None);
+        }
         match this.stream.get_mut().as_mut().poll_next(cx) {
             Poll::Ready(Some(Ok(d))) => {
                 let d_len = crate::as_u64(d.remaining());
@@ -214,6 +223,7 @@ where
             }
             Poll::Ready(Some(Err(e))) => Poll::Ready(Some(Err(e))),
             Poll::Ready(None) => {
+                this.finished = true;
                 if this.remaining != 0 {
                     let remaining = std::mem::take(&mut this.remaining); // fuse.
                     return Poll::Ready(Some(Err(E::from(Box::new(StreamTooShortError {
